@@ -1216,6 +1216,44 @@ pub mod verif_hooks {
         }
         (ok, mt, ch, tok, cheat)
     }
+
+    /// Runs one step function of `ServerState` (`create`, `destroy`, `release`,
+    /// `release_except_mine`, `release_mine`) on a fresh token pipe from the given
+    /// state.
+    ///
+    /// Returns `(completed without panic or error, my_tokens after, cheats
+    /// after, bytes written to the token pipe)`.
+    pub fn server_state_step_probe(
+        op: &str,
+        my_tokens: i32,
+        cheats: i32,
+        n: i32,
+    ) -> (bool, i32, i32, usize) {
+        let token_fds = make_pipe(100).expect("token pipe");
+        let mut state = ServerState::default();
+        state.my_tokens = my_tokens;
+        state.cheats = cheats;
+        let ok = std::panic::catch_unwind(std::panic::AssertUnwindSafe(|| match op {
+            "create" => {
+                state.create_tokens(n);
+                true
+            }
+            "destroy" => {
+                state.destroy_tokens(n);
+                true
+            }
+            "release" => state.release(token_fds, n).is_ok(),
+            "release_except_mine" => state.release_except_mine(token_fds).is_ok(),
+            "release_mine" => state.release_mine(token_fds).is_ok(),
+            _ => false,
+        }))
+        .unwrap_or(false);
+        let tok = drain(token_fds.0);
+        for fd in [token_fds.0, token_fds.1] {
+            let _ = unistd::close(fd);
+        }
+        (ok, state.my_tokens, state.cheats, tok)
+    }
 }
 
 #[cfg(test)]
